@@ -93,6 +93,23 @@ Theorem C06_domain_sums_regularizer_refuted :
     ~ Forall2 Qeq (fst (domain_metrics nd (Some r) bs)) (fst (domain_metrics nd (Some r) bs')).
 Proof. exact (conj domain_sums_regularizer_closed domain_sums_regularizer_refuted). Qed.
 
+(* the kernels TRANSLATED on this run -- models.grad.scalar_loss,
+   _evaluate_average_loss_step + _finalize_average_loss, the client_step of
+   mime.create_grads_for_each_client with the server-gradient normalisation of
+   mime.apply / mime_lite.apply, the client_step of
+   agnostic_fed_avg.create_domain_metrics_for_each_client -- run on finite inputs,
+   are exactly the specification functions the theorems above are about; the t_*
+   functions are what the correspondence evaluates.  (The same generated module also
+   records that agnostic_federated_averaging calls create_domain_metrics_for_each_client
+   WITHOUT a regularizer: a forwarded regularizer is a translation failure.) *)
+Theorem C06_translated_kernels :
+  (forall vals m r, t_scalar_loss vals m r = scalar_loss vals m r) /\
+  (forall bs r, t_avg_loss bs r = avg_loss bs r) /\
+  (forall dr bs, t_mime_client dr bs = ([fst (mime_client dr bs)], snd (mime_client dr bs))) /\
+  (forall lite dr cl, t_mime_fullbatch lite dr cl = mime_fullbatch dr cl) /\
+  (forall nd r bs, t_domain_metrics nd r bs = (inj (fst (domain_metrics nd r bs)), inj (snd (domain_metrics nd r bs)))).
+Proof. exact translated_kernels. Qed.
+
 (* non-vacuity: 3 real rows (2, 4, 6) in a padded batch of 5 with garbage padding, regulariser 1/2 *)
 Example C06_example :
   scalar_loss [2; 99; 4; 6; -7] (Some [true; false; true; true; false]) (Some (1 # 2)) = Some (12 / 3 + (1 # 2)) /\
@@ -101,7 +118,9 @@ Example C06_example :
             (Some (9 # 2)) = true /\
   NanQ.same (mime_fullbatch (Some 1) [[([2; 99], [true; false]); ([0; 0], [false; false])]; [([4; 6; 0; 0], [true; true; false; false])]])
             (Some 5) = true /\
-  NanQ.same (mime_fullbatch (Some 1) [[([3; 3], [false; false])]; []]) (Some 0) = true.
+  NanQ.same (mime_fullbatch (Some 1) [[([3; 3], [false; false])]; []]) (Some 0) = true /\
+  NanQ.same (t_mime_fullbatch true (Some 1) [[([3; 3], [false; false])]; []]) (Some 0) = true /\
+  NanQ.same (t_avg_loss [([2; 99], Some [true; false]); ([4; 6], None)] (Some (1 # 2))) (Some (9 # 2)) = true.
 Proof. vm_compute. repeat split. Qed.
 
 Print Assumptions C06_grad_padded_eq_unpadded.
@@ -112,3 +131,4 @@ Print Assumptions C06_avg_loss_empty_zero.
 Print Assumptions C06_fullbatch_grad_geometry_free.
 Print Assumptions C06_domain_sums_geometry_free.
 Print Assumptions C06_domain_sums_regularizer_refuted.
+Print Assumptions C06_translated_kernels.
